@@ -64,8 +64,11 @@ func (x *Exec) doSend(st *State, in ssa.Instruction, chv, v Val, chSSA ssa.Value
 	val := x.term(st, v, vt)
 	if x.full {
 		role := chanRole(chSSA)
-		x.oblige(st, "snd", fmt.Sprintf("#%d", x.ordinal("snd", in)), Not(x.closedAt(st, st.heapArr(ghClosed, heapSorts[ghClosed]), ch)), in.Pos(),
-			"send on a channel that is not closed (role "+role+")")
+		if role == "" || x.P.closable[role] || x.P.closable[""] {
+			// (roles no function of the module ever closes cannot panic on send)
+			x.oblige(st, "snd", fmt.Sprintf("#%d", x.ordinal("snd", in)), Not(x.closedAt(st, st.heapArr(ghClosed, heapSorts[ghClosed]), ch)), in.Pos(),
+				"send on a channel that is not closed (role "+role+")")
+		}
 		x.checkChanInv(st, in, role, val, vt)
 	}
 	x.recordSend(st, ch, val)
@@ -75,7 +78,7 @@ func (x *Exec) doSend(st *State, in ssa.Instruction, chv, v Val, chSSA ssa.Value
 // checkChanInv: the role invariant is an obligation at every send site under contract.
 func (x *Exec) checkChanInv(st *State, in ssa.Instruction, role string, v *Term, vt types.Type) {
 	ct := x.P.ChanInv[role]
-	if ct == nil {
+	if ct == nil || ct.Trusted {
 		return
 	}
 	for _, cl := range ct.Ensures {
@@ -86,13 +89,16 @@ func (x *Exec) checkChanInv(st *State, in ssa.Instruction, role string, v *Term,
 	}
 }
 
-func (x *Exec) assumeChanInv(st *State, role string, v *Term, vt types.Type, guard *Term) {
+func (x *Exec) assumeChanInv(st *State, role string, v *Term, vt types.Type, guard *Term, ch *Term, cht types.Type) {
 	ct := x.P.ChanInv[role]
 	if ct == nil {
 		return
 	}
+	if ct.Trusted {
+		x.trustedUsed["chan "+role] = true
+	}
 	for _, cl := range ct.Ensures {
-		t, ok := x.evalSpecWith(st, cl.Expr, "inv", map[string]specBinding{"v": {Val{T: v}, vt}})
+		t, ok := x.evalSpecWith(st, cl.Expr, "inv", map[string]specBinding{"v": {Val{T: v}, vt}, "ch": {Val{T: ch}, cht}})
 		if ok {
 			st.add(Implies(guard, t))
 		}
@@ -136,7 +142,7 @@ func (x *Exec) recvFacts(st *State, chSSA ssa.Value, ch, v *Term, et types.Type,
 	st.add(rangeFacts(v, et)...)
 	x.allocFactsLoose(st, v, et)
 	x.typeInvFacts(st, v, et)
-	x.assumeChanInv(st, chanRole(chSSA), v, et, ok)
+	x.assumeChanInv(st, chanRole(chSSA), v, et, ok, ch, chSSA.Type())
 	arr := st.heapArr(ghRecvd, heapSorts[ghRecvd])
 	st.heap[ghRecvd] = Store(arr, ch, Add(Select(arr, ch), Ite(ok, One, Zero)))
 }
